@@ -37,9 +37,9 @@ ASSUMPTIONS = [
     "replayed violation",
 ]
 
-UIDS = [1, 2, 3, 4, 5]
-NAMES = ["a", "b", "c", "d", "e"]
-HAS = ["X", "Y", "Z", "W", "V"]
+UIDS = [1, 2, 3, 4, 5, 6]
+NAMES = ["a", "b", "c", "d", "e", "f"]
+HAS = ["X", "Y", "Z", "W", "V", "U"]
 ATTR = {"move": "uid", "rename": "name", "reha": "ha"}
 METHOD = {"move": "moveRemote", "rename": "renameRemote", "reha": "rehaRemote"}
 
@@ -100,15 +100,19 @@ def check_indexes(sym, stack, model, key):
             lambda: "remote (%r,%r,%r) model %r" % (r.uid, r.name, r.ha, k))
 
 
-def h(sym, op, sizes, maxn):
+def h(sym, op, sizes, maxn, full=True):
+    """full: every attribute's keys in an independent symbolic order; otherwise only the attribute the operation
+    concerns (uid for add / remove) is ordered symbolically and the other two take their alphabet's order"""
     K = "C37/" + op
     stranger_attr = ATTR.get(op, "uid")
     uids, names, has = UIDS[:sizes[0]], NAMES[:sizes[1]], HAS[:sizes[2]]
     stack = RemoteStack(uid=uids[0], name=names[0], ha=has[0])
     n = sym.choice("n", maxn + 1)
-    ru = pick_seq(sym, "u", uids[1:], n)
-    rn = pick_seq(sym, "m", names[1:], n)
-    rh = pick_seq(sym, "h", has[1:], n)
+    vary = {"move": 0, "rename": 1, "reha": 2}.get(op, 0)
+    seqs = []
+    for j, (tag, alpha) in enumerate((("u", uids), ("m", names), ("h", has))):
+        seqs.append(pick_seq(sym, tag, alpha[1:], n) if (full or j == vary) else list(alpha[1:1 + n]))
+    ru, rn, rh = seqs
     model = []
     for i in range(n):
         r = RemoteDevice(stack, uid=ru[i], name=rn[i], ha=rh[i])
@@ -225,11 +229,12 @@ def h(sym, op, sizes, maxn):
 
 def obligations(tier):
     quick = tier == "quick"
-    maxn = 2
-    base = 3 if quick else 4
-    # the alphabet of the attribute an operation changes has one key more than max_remotes + local, so that a
-    # free key exists when the stack is full (a move of the first of two remotes must keep it first)
-    sizes = {"add": (base, base, base), "add-auto-uid": (base, base, base), "remove": (base, base, base),
+    maxn = 2 if quick else 3
+    base = maxn + 1            # local + maxn remotes
+    # the alphabet of the attribute an operation changes has one key more, so that a free key exists when the
+    # stack is full (a move of the first of several remotes must keep it first)
+    sizes = {"add": (base + 1, base + 1, base + 1) if not quick else (base, base, base),
+             "add-auto-uid": (base, base, base), "remove": (base, base, base),
              "move": (base + 1, base, base), "rename": (base, base + 1, base), "reha": (base, base, base + 1)}
     tk = ["target-indexed", "target-foreign-twin", "target-stranger"]
     covers = {
@@ -248,7 +253,9 @@ def obligations(tier):
         sz = sizes[op]
         bounds = dict(uids=UIDS[:sz[0]], names=NAMES[:sz[1]], has=HAS[:sz[2]], local="first element of each alphabet",
                       max_remotes=maxn, puid=[0, sz[0]], steps="1 (inductive) from any valid pre-state")
-        out.append(Ob("step/" + op, h, dict(op=op, sizes=sz, maxn=maxn), budget=240 if quick else 3000,
+        bounds["key_orders"] = "all three attributes independently ordered" if quick else \
+            "attribute under test symbolically ordered, the other two in alphabet order"
+        out.append(Ob("step/" + op, h, dict(op=op, sizes=sz, maxn=maxn, full=quick), budget=600 if quick else 3000,
                       covers=cv, bounds=bounds, max_fail_keys=40))
     return out
 
